@@ -31,7 +31,9 @@ Record cobs := {
   co_final : list (nat * snap);
   co_parse_ok : bool;                 (* the byte stream parsed as AMQP frames *)
   co_violations : nat;                (* protocol violations noted by the reference broker *)
-  co_fired : nat                      (* broker-initiated events that fired *)
+  co_fired : nat;                     (* broker-initiated events that fired *)
+  co_conn : st;                       (* connection state at the end *)
+  co_inv : nat * nat * nat            (* connected sockets, live library threads, armed timers *)
 }.
 Inductive cevent :=
 | EvChClose (c : nat) (code : Z) | EvConnClose (code : Z) | EvDrop
@@ -155,6 +157,26 @@ Definition conc_wire_ok (i : cscenario) (o : cobs) : bool :=
   co_parse_ok o &&
   forallb (fun c => let l := filter (fun f => Nat.eqb (wf_chan f) c) (co_wire o) in
                     wire_chan_ok (S (length l)) l) (seq 1 (cs_nchan i + 8)).
+
+(* ---------- C08: close() from several threads ---------- *)
+Definition is_conn_close (e : cev) : bool := match ce_op e with CConnClose => true | _ => false end.
+Definition conc_teardown_ok (i : cscenario) (o : cobs) : bool :=
+  (* every close() came back without raising; every other call returned or raised an AMQP error *)
+  forallb (fun e => if is_conn_close e then match ce_res e with CRNone => true | _ => false end
+                    else completed (ce_res e)) (co_events o) &&
+  (* closed, unregistered, nothing left running *)
+  st_eqb (co_conn o) CLOSED &&
+  forallb (fun cs => st_eqb (sn_state (snd cs)) CLOSED && negb (sn_registered (snd cs))) (co_final o) &&
+  match co_inv o with (0, 0, 0)%nat => true | _ => false end &&
+  co_parse_ok o.
+
+(* C11, last clause: closing the connection sends exactly one Connection.Close
+   (none when the broker closed it first) *)
+Definition conc_connclose_once_ok (i : cscenario) (o : cobs) : bool :=
+  Nat.leb (length (filter (fun f => oname_eqb (wf_name f) WConnClose) (co_wire o))) 1 &&
+  forallb (fun e => if is_conn_close e then match ce_res e with CRNone => true | _ => false end
+                    else true) (co_events o) &&
+  co_parse_ok o.
 
 Definition conc_nontrivial (i : cscenario) (o : cobs) : bool :=
   Nat.leb 2 (length (cs_threads i)) && negb (match co_wire o with [] => true | _ => false end).
